@@ -438,6 +438,34 @@ Definition lower_program (ds : list decl) : option (list irdecl) :=
   let '(_, out, errs) := lower_decls st ds in
   match errs with O => Some out | _ => None end.
 
+(* NOT the real pass structure — the alternative in which a newtype's hook is registered only when
+   the third pass reaches its declaration (next to the struct_names registration). Kept in the
+   model to state precisely what C17_every_site_rewritten relies on: in [lower_program] the table
+   [hooks] is COMPLETE (collect_hooks over the whole module) before the first body is lowered; here
+   it grows with the declarations, so a site above `type T = newtype ...` sees no hook. *)
+Definition register_hook (st : lstate) (d : decl) : lstate :=
+  match d with
+  | DNewtype nt =>
+      match select_newtype_checked_ctor nt with
+      | Some h => {| hooks := (nt_name nt, h) :: hooks st; structs := structs st; cur := cur st |}
+      | None => st
+      end
+  | _ => st
+  end.
+
+Fixpoint lower_decls_late (st : lstate) (ds : list decl) : lstate * list irdecl * nat :=
+  match ds with
+  | [] => (st, [], 0%nat)
+  | d :: r =>
+      let '(st1, out1, e1) := lower_decl (register_hook st d) d in
+      let '(st2, out2, e2) := lower_decls_late st1 r in
+      (st2, out1 ++ out2, (e1 + e2)%nat)
+  end.
+
+Definition lower_program_late (ds : list decl) : option (list irdecl) :=
+  let '(_, out, errs) := lower_decls_late fresh_state ds in
+  match errs with O => Some out | _ => None end.
+
 (* codegen.rs: the main module and every dependency module are lowered by their OWN
    AstLowering::new*(), so each module sees only the hooks of the newtypes it declares. *)
 Definition lower_project (modules : list (list decl)) : option (list (list irdecl)) :=
